@@ -12,9 +12,11 @@ numbers that lost their provenance (e.g. `int(p[0])`, or the plain ints of `intn
 The DEFS object carries symbolic `defs_sd … defs_maxsof`, so `s = defs.sd * 2` is read as (field sd, factor 2) from the
 linear normal form of the expression that arrived in the attribute.
 
-A reading is only kept when it is confirmed on four more sample vectors (ascending, negative, tiny, all zero): for each
-of them the value predicted by the form read from the first vector is compared with what the constructor produced.
-An attribute whose values do not agree is value dependent; it is reported, never guessed.
+A reading is only kept when it is confirmed on four more sample vectors (ascending, negative, tiny, all zero) and on
+vectors that put a parameter on, just below and just above every constant the constructor compared it with (the
+branch events of the tracer: `if p[0] > 5:`, `if not self.d:`): for each of them the value predicted by the form read
+from the first vector is compared with what the constructor produced. An attribute whose values do not agree is value
+dependent; it is reported, never guessed.
 
 Printed: one JSON object  {"classes": [...], "lost": [...]}  (see `probe_class`); the piecewise synthesis of guards from
 the per-n observations and the Lean rendering are done by tables_c16.py.
